@@ -48,10 +48,10 @@ def run_case(ctx, case):
 
 
 def run(ctx):
-    n = 250 if ctx.tier == 'quick' else 4000
     names = sorted(ops.OPS)
+    n = len(names) * (6 if ctx.tier == 'quick' else 80)
     for i in range(n):
-        name = names[i % len(names)] if i < 2 * len(names) else None
+        name = names[i % len(names)]
         case = ops.gen_case(ctx.rng, ctx.tier, name, D=ctx.rng.randint(2, 5 if ctx.tier == 'quick' else 8))
         ctx.evaluations += 1
         ctx.count('op=' + case['op'].split(':')[0], 'D=%d' % case['D'], 'P=%d' % case['P'])
